@@ -8,6 +8,7 @@ import (
 	"os"
 	"strings"
 	"testing"
+	"time"
 
 	"cosmossdk.io/core/appmodule"
 	sdk "github.com/cosmos/cosmos-sdk/types"
@@ -60,6 +61,23 @@ func runBlockOn(b *Base, ctx sdk.Context) (err error, panicked string) {
 		}
 	}()
 	return mod.BeginBlock(ctx), ""
+}
+
+// countBlockTransfers returns the number of bank transfers block processing at time t would make
+// (dry run on a discarded branch; 0 when it would fail anyway).
+func countBlockTransfers(w *World, t time.Time) int {
+	if !t.After(w.Now) {
+		return 0
+	}
+	dry, _ := w.Ctx.WithBlockTime(t).WithBlockHeight(w.Height + 1).CacheContext()
+	bankFault = faultPlan{active: true, failAt: -1}
+	err, pan := runBlockOn(w.B, dry)
+	m := bankFault.count
+	bankFault = faultPlan{}
+	if err != nil || pan != "" {
+		return 0
+	}
+	return m
 }
 
 // faultEnumBlock re-runs the block that is about to be executed once per bank transfer it
